@@ -27,6 +27,7 @@ func checkC20(c *Ctx, r *Report) {
 	r.rule("C20.R2", "every dereference of a configuration pointer member is guarded or guaranteed by validation", 20)
 	r.rule("C20.R3", "rejection clauses: service names, scheme, ReadConfig error propagation, provenance of the configuration in use", 5)
 	r.rule("C20.R5", "building the router cannot register a path twice for a validated service list: distinct constant prefixes per service, no service mounted twice", 4)
+	r.rule("C20.R6", "the hand-written validation passes, which run before ValidateStruct has evaluated the `required` tags, test every configuration section for nil before they use it", 1)
 	r.rule("C20.R4", "a validation failure reported by ValidateStruct is never dropped on its way to ReadConfig", 3)
 
 	fp := c.pkg("pkg/factory")
@@ -111,6 +112,7 @@ func checkC20(c *Ctx, r *Report) {
 		}
 	}
 	r.count("config_pointer_dereferences", nder)
+	c20OptionalReceivers(c, r, "C20.R2", optional)
 
 	// R3a: service names
 	validate := c.fn("pkg/factory", "Configuration.validate")
@@ -229,7 +231,10 @@ func checkC20(c *Ctx, r *Report) {
 		if errv != nil {
 			for _, ref := range *errv.Referrers() {
 				bo, isBo := ref.(*ssa.BinOp)
-				if !isBo || bo.Op != token.NEQ {
+				if !isBo || (bo.Op != token.NEQ && bo.Op != token.EQL) {
+					continue
+				}
+				if !(isNilConst(bo.X) || isNilConst(bo.Y)) {
 					continue
 				}
 				for _, r2 := range *bo.Referrers() {
@@ -237,7 +242,11 @@ func checkC20(c *Ctx, r *Report) {
 					if !isIf {
 						continue
 					}
+					// `if err != nil {..}` or the guard form `if err == nil { return cfg, nil }`
 					errEdge := ifi.Block().Succs[0]
+					if bo.Op == token.EQL {
+						errEdge = ifi.Block().Succs[1]
+					}
 					reach := reachableFrom(errEdge, nil, nil, nil)
 					all := true
 					n := 0
@@ -297,6 +306,7 @@ func checkC20(c *Ctx, r *Report) {
 	}
 	c20ErrorsNotDropped(c, r, "C20.R4")
 	c20DistinctRouteGroups(c, r, "C20.R5")
+	c20ValidationGuardsItself(c, r, "C20.R6")
 }
 
 // c20DistinctRouteGroups (C20.R5): gin panics when a path is registered twice.  Two things
